@@ -208,7 +208,7 @@ TL2_SHAPE_MODES = {"c03", "c05", "c08", "c09", "c10", "c43"}
 
 
 def simple_check(ctx, mode, rule, require, quick_values, thorough_values, configs_quick=("tl2all",), configs_thorough=("tl2all", "split", "nobytes"),
-                 count_keys=("values",), env=None, fill_death_is_violation=False, sets_quick=None, mem_gb=6, random_quick=0, random_thorough=0, oom_is_violation=False, extra_texts=()):
+                 count_keys=("values",), env=None, fill_death_is_violation=False, sets_quick=None, mem_gb=6, random_quick=0, random_thorough=0, oom_is_violation=False, extra_texts=(), advisory_deaths=()):
     thorough = ctx.tier == "thorough"
     ctx.make_scratch()
     sets = REPO_SETS_ALL if thorough else (sets_quick or REPO_SETS_QUICK)
@@ -218,7 +218,7 @@ def simple_check(ctx, mode, rule, require, quick_values, thorough_values, config
     if env:
         e.update(env)
     for p in pkgs:
-        t, _ = run_mode(ctx, p, mode, env=e, fill_death_is_violation=fill_death_is_violation, mem_gb=mem_gb, oom_is_violation=oom_is_violation)
+        t, _ = run_mode(ctx, p, mode, env=e, fill_death_is_violation=fill_death_is_violation, mem_gb=mem_gb, oom_is_violation=oom_is_violation, advisory_deaths=advisory_deaths)
         for k, v in t.items():
             tot[k] = tot.get(k, 0) + v
     if mode in TL2_SHAPE_MODES:
@@ -229,14 +229,14 @@ def simple_check(ctx, mode, rule, require, quick_values, thorough_values, config
             f.write(xtext)
         p = build_pkg(ctx, "crafted_%s_%s" % (mode, xname.replace(".", "_")), [xp], "tl2all")
         p.schema = "crafted:" + xname
-        t, _ = run_mode(ctx, p, mode, env=e, fill_death_is_violation=fill_death_is_violation, mem_gb=mem_gb, oom_is_violation=oom_is_violation)
+        t, _ = run_mode(ctx, p, mode, env=e, fill_death_is_violation=fill_death_is_violation, mem_gb=mem_gb, oom_is_violation=oom_is_violation, advisory_deaths=advisory_deaths)
         for k, v in t.items():
             tot[k] = tot.get(k, 0) + v
             tot["crafted_" + k] = tot.get("crafted_" + k, 0) + v
     nrand = random_thorough if thorough else random_quick
     rpk = random_packages(ctx, nrand, mode) if nrand else []
     for p, sch in rpk:
-        t, _ = run_mode(ctx, p, mode, env=e, fill_death_is_violation=fill_death_is_violation, mem_gb=mem_gb, reclass=sanity_reclass(sch), oom_is_violation=oom_is_violation)
+        t, _ = run_mode(ctx, p, mode, env=e, fill_death_is_violation=fill_death_is_violation, mem_gb=mem_gb, reclass=sanity_reclass(sch), oom_is_violation=oom_is_violation, advisory_deaths=advisory_deaths)
         for k, v in t.items():
             tot[k] = tot.get(k, 0) + v
             tot["random_" + k] = tot.get("random_" + k, 0) + v
